@@ -27,6 +27,9 @@ CHECKS = {
  'C20': dict(engine='gev-c20', technique='exhaustive enumeration of file sets x insertion orders x import_group splits under enumerated hash-key answers of the environment (getrandom shim), byte-for-byte comparison',
    text='Every non-empty subset of 5 (quick, <= 4 files) / 6 (thorough, <= 6 files) model templates with binding-map fields, slot scopes, imports / includes and inline + external scripts; every insertion order of its files, rotating script orders, every import_group bipartition in both directions; each under 64 (quick) / 768 (thorough) hash seeds, one process per seed, every HashMap instance in a process taking the next key of the seeded sequence. All artefacts (bundle, wx bundle, per-file generator object, runtime prelude, globals, script export, stringified text, dependency lists) must be one byte string per file set; three stylesheets with source maps likewise. The run measures, per file set, how many of the k! iteration orders of a probe map with the same keys the hash answers realised (all of them for k <= 4 in the quick tier).',
    note='Trusted: the LD_PRELOAD getrandom shim owns std RandomState keys (self-checked: same seed twice gives identical runs, different seeds give different probe orders). "Every process" is covered up to the iteration orders realised, which are reported.', ref='4/C20'),
+ 'C03': dict(engine='js-c03', technique='bounded-exhaustive enumeration of expression trees x data environments; generated code executed by V8 on a recording runtime and compared with V8 evaluating the fully parenthesised reference',
+   text='Every expression tree of operator depth <= 2 (quick) / 3 (thorough) over 6 unary and 23 binary operators, ?:, static members (5 names incl. toString / constructor / __proto__), dynamic index, calls with 0-2 arguments, array literals with holes at every position and spreads, object literals (named, spread, shorthand), explicit parentheses, in every operand position; every number spelling (radices, exponents, beyond 2^53 / 2^63 / float range), string escape and keyword literal of the pool in 11 positions; each in three spellings (minimal parentheses, fully parenthesised, comments between tokens); under every assignment of a, b over a 20-value pool (c over 6 / 20). Equality is Object.is on primitives, structural with hole- and prototype-awareness on containers, same error class on throws. Failing cases are shrunk to a canonical minimal tree and environment before they are compared with the findings list.',
+   note='Trusted: V8 (both sides). The reference deviates from plain JavaScript only in null-safe member reads and plain-function calls. Not asserted: evaluation order / short-circuit of sub-expressions with side effects; expressions the parser rejects at Error level.', ref='4/C03'),
 }
 
 NOT_YET = {}
@@ -63,6 +66,7 @@ def main():
             'add_only': True,
         },
         'engines': [
+            {'name': 'js', 'path': 'js/', 'serves_properties': sorted(k for k in CHECKS if CHECKS[k]['engine'].startswith('js')), 'kind_free_text': 'JavaScript explorers (node 20 for the recording runtime, node 22 for the real TypeScript runtime): models, printers, reference interpreters; compile through `gev batch`'},
             {'name': 'gev', 'path': 'harness/', 'serves_properties': sorted(CHECKS), 'kind_free_text': 'Rust harness linking the real compiler crates from /repo: bounded-exhaustive explorers, JSON batch compile server for the JavaScript explorers'},
         ],
         'checks': checks,
